@@ -84,8 +84,10 @@ func RunC20(c *Ctx, r *Report) {
 	ar := c.Alias(&AliasCfg{
 		Scope: dscope,
 		Source: func(fn *ssa.Function, v ssa.Value) bool {
+			// parameters of internal helpers (unexported, every caller known) are no inputs of their own:
+			// they carry what their callers pass, which the analysis propagates from the call sites
 			p, ok := v.(*ssa.Parameter)
-			return ok && isByteSlice(p.Type())
+			return ok && isByteSlice(p.Type()) && !c.eligibleForCallerFacts(fn)
 		},
 	})
 	const hdrKey = "field:message.IKEHeader.PayloadBytes"
